@@ -58,6 +58,7 @@ def event_code(time, actor, obsname, event, resource):
 
 
 REG.field_types.update({'Monitor.df': 'any', 'Monitor.events': 'any', 'Planner.delay_model': 'DelayModel'})
+REG.ctor_params['Monitor'] = {'simulation': 'obj:Simulation', 'start_time': 'any'}
 
 
 def sim_world(eng):
@@ -69,8 +70,10 @@ def sim_world(eng):
                               'scheduler': d['scheduler'], 'instrument': d['telescope'],
                               'running': eng.fresh_of_type('bool', 'sim.running'), 'to_file': False, '_hdf5_store': None,
                               '_cfg_path': Opaque('path'), '_cfg': Opaque('config')}, 'simulation')
-    mon = ObjV('Monitor', {'simulation': sim, 'env': ENV, 'sim_timestamp': Opaque('timestamp'),
-                           'df': eng.fresh_of_type('any', 'monitor.df'), 'events': eng.fresh_of_type('any', 'monitor.events')}, 'monitor')
+    # the monitor: its real __init__ executed symbolically (so a field a changed constructor adds exists here too), then havocked
+    mon = eng.construct('Monitor', args={'simulation': sim, 'start_time': Opaque('timestamp')}, label='monitor')
+    mon.fields['df'] = eng.fresh_of_type('any', 'monitor.df')            # data frames: opaque ids with a row count (assumed pandas)
+    mon.fields['events'] = eng.fresh_of_type('any', 'monitor.events')
     sim.fields['monitor'] = mon
     d['simulation'] = sim
     d['monitor'] = mon
